@@ -464,6 +464,15 @@ SCRIPT_VARIANTS = 12
 
 
 def _build(spec):
+    if spec["kind"] == "raw":
+        # a HUGR edited through the mutators after building: deleted nodes, reused indices (children lists
+        # that are not in index order), multi-links, order links — complete operations throughout
+        from props import C02
+
+        h = C02.build(spec["spec"])
+        if h is None:
+            raise ValueError("history outside the domain")
+        return h
     if spec["kind"] == "mod":
         from props import C09
 
@@ -783,6 +792,25 @@ def _names(out):
     return {n["id"]: n["name"] for n in dotparse.node_stmts(dotparse.items_of(out))}
 
 
+_WARM = []
+
+
+def _warm_hugr():
+    """a small HUGR whose low node indices have other arities, names and metadata than most others"""
+    if not _WARM:
+        from hugr import ops, tys
+        from hugr.build.dfg import Dfg
+
+        d = Dfg(tys.Bool, tys.Qubit, tys.Bool)
+        d.hugr[d.hugr.root].metadata["warm"] = [1, 2]
+        a, q, b = d.inputs()
+        n = d.add_op(ops.Noop(), a)
+        d.hugr[n.to_node()].metadata["m"] = "x"
+        d.set_outputs(n[0], q, b, a)
+        _WARM.append(d.hugr)
+    return _WARM[0]
+
+
 def _oracle(h, spec, st):
     from hugr import ops, tys
 
@@ -822,6 +850,23 @@ def _oracle(h, spec, st):
             out = dotparse.render_out(dotparse.parse(src))
         except dotparse.DotError as e:
             fails.append(Failure(site, "source-not-readable-as-dot", str(e)[:160]))
+            return fails
+        # ---- a renderer object that drew another HUGR before draws this one the same way
+        try:
+            from hugr.hugr.render import DotRenderer
+
+            r = DotRenderer(cfg)
+            r.render(_warm_hugr())
+            src2 = r.render(h).source
+            if src2 != src:
+                fails.append(Failure(site, "drawing-depends-on-what-the-renderer-drew-before",
+                                     _first_diff(json.loads(_canon(out)), json.loads(_canon(dotparse.render_out(dotparse.parse(src2)))))))
+                return fails
+        except dotparse.DotError as e:
+            fails.append(Failure(site, "source-not-readable-as-dot", str(e)[:160]))
+            return fails
+        except Exception as e:  # noqa: BLE001
+            fails.append(Failure(site, "render-raises", f"reused renderer: {type(e).__name__}: {str(e)[:120]}"))
             return fails
         items = dotparse.items_of(out)
         # ---- one node statement per node, with the display name and one cell per port
@@ -987,6 +1032,11 @@ def cases(rng, tier):
         if i % 8 == 1:
             yield {"kind": "script", "name": "rand_cfg", "v": rng.randrange(10**9), "configs": cs}
             continue
+        if i % 8 == 2:
+            from props import C02
+
+            yield {"kind": "raw", "spec": C02._gen_raw(rng), "configs": cs}
+            continue
         size = rng.choice([0, 1, 2, 3, 4, 6, 8, 10]) if i % 7 else rng.choice([12, 16])
         yield {"kind": "mod", "seed": rng.randrange(10**9), "size": size, "configs": cs}
 
@@ -1106,6 +1156,11 @@ def shrink(spec, pred):
                 cand = {**s, "size": size, "seed": seed}
                 if pred(cand):
                     return cand
+    elif s["kind"] == "raw":
+        from props import C02
+
+        inner = C02.shrink(s["spec"], lambda sp: pred({**s, "spec": sp}))
+        s = {**s, "spec": inner}
     else:
         for name in SCRIPTS:
             for v in range(4):
